@@ -51,6 +51,7 @@ func (l *IPFSLog) Len() int {
 }
 
 func (l *IPFSLog) RawHeads() iface.IPFSLogOrderedEntries {
+	verifPoint(l, "rawheads.enter")
 	l.lock.RLock()
 	heads := l.heads
 	l.lock.RUnlock()
@@ -178,6 +179,7 @@ func NewLog(services coreiface.CoreAPI, identity *identityprovider.Identity, opt
 func (l *IPFSLog) SetIdentity(identity *identityprovider.Identity) {
 	l.lock.Lock()
 	defer l.lock.Unlock()
+	verifPoint(l, "setidentity.locked")
 
 	l.Identity = identity
 
@@ -301,8 +303,11 @@ func (l *IPFSLog) Has(c cid.Cid) bool {
 //
 // payload is the data that will be in the Entry
 func (l *IPFSLog) Append(ctx context.Context, payload []byte, opts *AppendOptions) (iface.IPFSLogEntry, error) {
+	verifPoint(l, "append.enter")
+	defer verifPoint(l, "append.exit")
 	l.lock.Lock()
 	defer l.lock.Unlock()
+	verifPoint(l, "append.locked")
 
 	// next and refs are empty slices instead of nil
 	next := []cid.Cid{}
@@ -382,6 +387,8 @@ func (l *IPFSLog) Append(ctx context.Context, payload []byte, opts *AppendOption
 		return nil, errmsg.ErrLogAppendFailed.Wrap(err)
 	}
 
+	verifPoint(l, "append.created")
+
 	if err := l.AccessController.CanAppend(e, l.Identity.Provider, &CanAppendContext{log: l}); err != nil {
 		return nil, errmsg.ErrLogAppendDenied.Wrap(err)
 	}
@@ -391,6 +398,8 @@ func (l *IPFSLog) Append(ctx context.Context, payload []byte, opts *AppendOption
 	for _, nextEntryCid := range next {
 		l.Next.Set(nextEntryCid.String(), e)
 	}
+
+	verifPoint(l, "append.indexed")
 
 	l.heads = entry.NewOrderedMapFromEntries([]iface.IPFSLogEntry{e})
 
@@ -432,6 +441,7 @@ func (l *IPFSLog) Iterator(options *IteratorOptions, output chan<- iface.IPFSLog
 
 	l.lock.RLock()
 	start := l.sortedHeads(l.heads.Slice()).Slice()
+	verifPoint(l, "iterator.locked")
 
 	if options.LTE != nil {
 		start = nil
@@ -478,6 +488,7 @@ func (l *IPFSLog) Iterator(options *IteratorOptions, output chan<- iface.IPFSLog
 
 	entriesMap, err := l.traverse(entry.NewOrderedMapFromEntries(start), count, endHash)
 	l.lock.RUnlock()
+	verifPoint(l, "iterator.unlocked")
 	if err != nil {
 		return errmsg.ErrLogTraverseFailed.Wrap(err)
 	}
@@ -524,10 +535,14 @@ func (l *IPFSLog) Join(otherLog iface.IPFSLog, size int) (iface.IPFSLog, error) 
 		return l, nil
 	}
 
+	verifPoint(l, "join.enter")
+	defer verifPoint(l, "join.exit")
 	l.lock.Lock()
 	defer l.lock.Unlock()
+	verifPoint(l, "join.locked")
 
 	newItems := difference(otherLog.GetEntries(), otherLog.RawHeads().Slice(), l)
+	verifPoint(l, "join.diffed")
 
 	wg := &sync.WaitGroup{}
 	wg.Add(newItems.Len())
@@ -560,6 +575,7 @@ func (l *IPFSLog) Join(otherLog iface.IPFSLog, size int) (iface.IPFSLog, error) 
 	if err != nil {
 		return nil, errmsg.ErrLogJoinFailed.Wrap(err)
 	}
+	verifPoint(l, "join.validated")
 
 	for _, k := range newItems.Keys() {
 		e := newItems.UnsafeGet(k)
@@ -578,6 +594,8 @@ func (l *IPFSLog) Join(otherLog iface.IPFSLog, size int) (iface.IPFSLog, error) 
 		}
 	}
 
+	verifPoint(l, "join.indexed")
+
 	mergedHeads := entry.FindHeads(l.heads.Merge(otherLog.RawHeads()))
 
 	for idx, e := range mergedHeads {
@@ -593,6 +611,8 @@ func (l *IPFSLog) Join(otherLog iface.IPFSLog, size int) (iface.IPFSLog, error) 
 	}
 
 	l.heads = entry.NewOrderedMapFromEntries(mergedHeads)
+
+	verifPoint(l, "join.applied")
 
 	if size > -1 {
 		tmp := l.values().Slice()
@@ -696,6 +716,7 @@ func (l *IPFSLog) ToString(payloadMapper func(iface.IPFSLogEntry) string) string
 func (l *IPFSLog) ToSnapshot() *Snapshot {
 	l.lock.RLock()
 	defer l.lock.RUnlock()
+	verifPoint(l, "snapshot.locked")
 
 	heads := l.heads.Slice()
 
@@ -935,6 +956,7 @@ func NewFromEntry(ctx context.Context, services coreiface.CoreAPI, identity *ide
 func (l *IPFSLog) Values() iface.IPFSLogOrderedEntries {
 	l.lock.RLock()
 	defer l.lock.RUnlock()
+	verifPoint(l, "values.locked")
 
 	return l.values()
 }
@@ -960,6 +982,7 @@ func (l *IPFSLog) ToJSONLog() *iface.JSONLog {
 	l.lock.RUnlock()
 
 	stack := heads.Slice()
+	verifPoint(l, "jsonlog.unlocked")
 	sorting.Sort(l.SortFn, stack, true)
 
 	var hashes []cid.Cid
@@ -978,6 +1001,7 @@ func (l *IPFSLog) GetID() string {
 }
 
 func (l *IPFSLog) GetEntries() iface.IPFSLogOrderedEntries {
+	verifPoint(l, "getentries.enter")
 	l.lock.RLock()
 	defer l.lock.RUnlock()
 
@@ -991,6 +1015,7 @@ func (l *IPFSLog) Heads() iface.IPFSLogOrderedEntries {
 	l.lock.RLock()
 	heads := l.heads.Slice()
 	l.lock.RUnlock()
+	verifPoint(l, "heads.unlocked")
 
 	return l.sortedHeads(heads)
 }
